@@ -281,6 +281,7 @@ def run(tier, seed):
     xs = [2.5, 0.75, 320.0]
     verdict_lines, verdict_expect = [], []
     inbase_lines, inbase_expect = [], []
+    variant_lines, variant_expect = [], []
 
     def in_float_range(sysname, u):
         """conversions whose factor leaves the double range are outside 'up to rounding'"""
@@ -318,6 +319,10 @@ def run(tier, seed):
         before, res, after = lib_inbase(sysname, u, x)
         inbase_lines.append("\t".join(["c10.inbase", extra, before, uw, str(core.f2b(x))]))
         inbase_expect.append((tag, sysname, str(u), x, res, after, u))
+        # the in-place and Unit-level variants of the model, against the same library result
+        variant_lines.append("\t".join(["c10.tobase", extra, before, uw, str(core.f2b(x))]))
+        variant_lines.append("\t".join(["c10.baseequiv", extra, before, uw]))
+        variant_expect.append((tag, sysname, str(u), x, res, u))
 
     def run_case(tag, sysname, us, u, x, setup="", regcode="None", extra="", sample=None):
         """direct oracle on the library for one (system, unit, value) + the model request"""
@@ -654,6 +659,31 @@ def run(tier, seed):
         if not same_um(parse_um(r[7]), after):
             ma = parse_um(r[7])
             chk.disagree("c10.inbase", f"{where}: units_map after the call differs: keys only in model {sorted(set(ma) - set(after))[:3]}, only in library {sorted(set(after) - set(ma))[:3]}")
+    rep = ask(variant_lines)
+    for i, (tag, sname, ustr, x, res, u) in enumerate(variant_expect):
+        if 2 * i + 1 >= len(rep) or rep[2 * i][0] == "nomodel":
+            break
+        for opname, r in (("c10.tobase", rep[2 * i]), ("c10.baseequiv", rep[2 * i + 1])):
+            chk.count("model:" + opname[4:])
+            where = f"[{tag}] {ustr} -> {sname!r} ({opname})"
+            if res[0] == "err":
+                if r[0] != "err" or r[1] != res[1]:
+                    chk.disagree(opname, f"{where}: library raised {res[1]}, model {r[:2]}")
+                continue
+            lr = res[1]
+            if r[0] != "ok":
+                chk.disagree(opname, f"{where}: library returned {lr.units}, model {r[:2]}")
+                continue
+            try:
+                lc, lf = gen.expr_wire(lr.units.expr)
+            except ValueError:
+                continue
+            if not (gen.parse_factors(r[5]) == gen.parse_factors(lf) and core.close(core.b2f(r[4]), core.b2f(lc)) and r[3] == gen.dim_vec(lr.units.dimensions)):
+                chk.disagree(opname, f"{where}: unit differs: library {lr.units}, model {r[4:6]}")
+            elif opname == "c10.tobase":
+                my, ly = core.b2f(r[6]), float(lr.v)
+                if not (core.close(my, ly, 1e-11) or abs(my - ly) <= 1e-10 * (abs(lr.units.base_offset) + abs(u.base_offset) * abs(u.base_value / lr.units.base_value if lr.units.base_value else 1))):
+                    chk.disagree(opname, f"{where}: value differs: library {ly!r}, model {my!r}")
     rep = ask(getitem_lines)
     for r, (sname, dv, res, after, dim) in zip(rep, getitem_expect):
         chk.count("model:getitem")
